@@ -44,4 +44,111 @@ def camelL : List Nat → Bool → List Nat
     if 65 ≤ b ∧ b ≤ 90 then (if pos = true then [95, b + 32] else [b + 32]) ++ camelL t true
     else b :: camelL t true
 
+/-! ### The case converters on ARBITRARY byte strings
+
+The Go loops treat a byte `< 0x80` by the ASCII rules and skip any other position by the
+size `utf8.DecodeRuneInString` reports (1 for an invalid byte), copying those bytes verbatim
+and — in `SnakeToCamelCase` — clearing `firstUp`.  `snakeB`/`camelB` say exactly that, by
+recursion on the remaining bytes (fuel = their number); linear time.  For valid UTF-8:
+a non-ASCII rune (letter of any case, digit of another script, symbol) is never changed and
+never re-cased; after `_` + non-ASCII rune nothing is upper-cased. -/
+
+def snakeB : Nat → List Nat → Bool → Bool → List Nat
+  | 0, _, _, _ => []
+  | _, [], _, _ => []
+  | n + 1, b :: t, fu, pos =>
+    if b < 0x80 then
+      if fu = true then (if 97 ≤ b ∧ b ≤ 122 then b - 32 else b) :: snakeB n t false true
+      else if pos = true ∧ b = 95 then snakeB n t true true
+      else b :: snakeB n t false true
+    else
+      let sz := (decodeRune (b :: t)).2
+      (b :: t).take sz ++ snakeB n ((b :: t).drop sz) false true
+
+def camelB : Nat → List Nat → Bool → List Nat
+  | 0, _, _ => []
+  | _, [], _ => []
+  | n + 1, b :: t, pos =>
+    if b < 0x80 then
+      if 65 ≤ b ∧ b ≤ 90 then (if pos = true then [95, b + 32] else [b + 32]) ++ camelB n t true
+      else b :: camelB n t true
+    else
+      let sz := (decodeRune (b :: t)).2
+      (b :: t).take sz ++ camelB n ((b :: t).drop sz) true
+
+/-! ### Linear evaluation of the byte loops of `Sub` and `Mask`, of `Rev` and of `RemoveRunes`
+for EVERY subject (valid UTF-8 or not) and every argument
+
+`subLoopF`/`maskLoopF` are `subLoop`/`maskLoop` with the remaining suffix `s[i:]` threaded
+through the loop, so that `s[i]` and `utf8.DecodeRuneInString(s[i:])` cost O(1)
+(`Proof/C17Fast.lean`: equal to the cursor loops whenever `rest = s.drop i`). -/
+
+/-- bytes the cursor step `advance` moves over, read off the remaining suffix. -/
+def stepB : List Nat → Nat
+  | [] => 0
+  | b :: t => if b < 0x80 then 1 else (decodeRune (b :: t)).2
+
+def subLoopF (s : List Nat) (start length : Int) : Nat → List Nat → Nat → Nat → Int → Option (List Nat)
+  | 0, _, _, _, _ => none
+  | fuel + 1, rest, i, count, begin =>
+    match rest with
+    | [] => if begin < 0 then some [] else sliceFromI s begin
+    | _ :: _ =>
+      if (count : Int) = start then
+        if length = -1 then some rest
+        else subLoopF s start length fuel (rest.drop (stepB rest)) (i + stepB rest) (count + 1) i
+      else if 0 ≤ begin ∧ start + length = count then sliceI s begin i
+      else subLoopF s start length fuel (rest.drop (stepB rest)) (i + stepB rest) (count + 1) begin
+
+def subF (s : List Nat) (start length : Int) : Option (List Nat) :=
+  if start < 0 ∨ length < -1 ∨ s = [] then some s
+  else if length = 0 then some []
+  else subLoopF s start length (s.length + 1) s 0 0 (-1)
+
+def maskLoopF (start end_ : Int) : Nat → List Nat → Nat → Nat → Nat → Nat → Option (Nat × Nat)
+  | 0, _, _, _, _, _ => none
+  | fuel + 1, rest, i, count, si, ei =>
+    match rest with
+    | [] => some (si, ei)
+    | _ :: _ =>
+      let si' := if (count : Int) = start then i else si
+      let ei' := if (count : Int) = start then ei else if (count : Int) = end_ then i else ei
+      maskLoopF start end_ fuel (rest.drop (stepB rest)) (i + stepB rest) (count + 1) si' ei'
+
+def maskF (str msk : List Nat) (start end_ : Int) : Option (List Nat) :=
+  let l : Int := runeCount str
+  if start > l ∨ end_ > l then some str
+  else
+  let ml := l - start - end_
+  if ml ≤ 0 then some str
+  else
+    let msk := if runeCount msk = 1 then repeatStr msk ml.toNat else msk
+    if ml = l then some msk
+    else
+      let end_ := l - end_
+      match maskLoopF start end_ (str.length + 1) str 0 0 0 0 with
+      | none => none
+      | some (si, ei) =>
+        let ei := if ei = 0 then str.length else ei
+        match sliceTo str si, sliceFrom str ei with
+        | some a, some b => some (a ++ msk ++ b)
+        | _, _ => none
+
+/-- `Rev` on any string: `string(reverse([]rune(s)))` (an invalid byte is one U+FFFD). -/
+def revF (s : List Nat) : List Nat := encode (runes s).reverse
+
+/-- `RemoveRunes` on any string: unchanged when the predicate selects nothing; otherwise the
+bytes before the first selected rune verbatim, then the remaining unselected runes
+re-encoded (`WriteRune`: an invalid byte becomes U+FFFD). -/
+def removeGo (s : List Nat) (p : Int → Bool) : List (Nat × Int × Nat) → Option (List Nat)
+  | [] => none
+  | (i, v, _) :: rest =>
+    if p v then some (s.take i ++ encode ((rest.map (·.2.1)).filter fun r => !p r))
+    else removeGo s p rest
+
+def removeF (s : List Nat) (p : Int → Bool) : List Nat :=
+  match removeGo s p (rangeDecode s) with
+  | none => s
+  | some b => b
+
 end Golib.C17
